@@ -34,7 +34,7 @@ class BudgetExceeded(BaseException):
 
 
 def plan(tier):
-    return {"runs": 400} if tier == "quick" else {"runs": 100000, "budget": 900.0}
+    return {"runs": 400} if tier == "quick" else {"runs": 40000, "budget": 900.0}
 
 
 # ---------------------------------------------------------------------------------------------------------------
